@@ -45,6 +45,26 @@ def nx_of_lv(d):
     return dag
 
 
+def nx_of_lv_worlds(d):
+    """The same tagged DAG with its observed nodes called as variables of several worlds that SHARE base names (B0, B1 @ -W1, B0 @ -W1, ...): node sets keyed
+    by name instead of by node would merge them. Returns the DAG and the map back to identifiers."""
+    import networkx as nx
+    from y0.dsl import Variable
+    lat = set(d["lat"])
+    ids = sorted(v for v in d["nodes"] if v not in lat)
+    m = max(2, (len(ids) + 1) // 2)
+    var = {v: Variable(f"U{v}") for v in lat}     # latents stay plain variables (y0 orders latents by comparing the nodes; it cannot compare across classes)
+    for idx, v in enumerate(ids):
+        base, w = Variable(f"B{idx % m}"), idx // m
+        var[v] = base if w == 0 else base @ (-Variable(f"W{w}"))
+    dag = nx.DiGraph()
+    for v in d["nodes"]:
+        dag.add_node(var[v], hidden=(v in d["lat"]))
+    for a, b in d["edges"]:
+        dag.add_edge(var[a], var[b])
+    return dag, {x: v for v, x in var.items()}
+
+
 def admg_enc(gr):
     return {"nodes": [enc(v) for v in gr.nodes()], "dir": [[enc(a), enc(b)] for a, b in gr.directed.edges()],
             "bid": [[enc(a), enc(b)] for a, b in gr.undirected.edges()]}
@@ -86,7 +106,7 @@ class C16(PropBase):
     budgets = {"quick": 900, "thorough": 9000}
     rule = ("(a) random ADMGs (2..6 nodes, with isolated nodes) through to_latent_variable_dag and back; (b) random DAGs on 3..7 nodes with a random "
             "subset tagged latent (latents with parents, 0/1/many children, duplicated child sets), and a family built around a directed chain of 3..4 latents with observed nodes hanging off it, through simplify_latent_dag and "
-            "from_latent_variable_dag. Non-trivial: (a) graph has a bidirected edge or an isolated node, (b) at least one latent has a parent or the "
+            "from_latent_variable_dag, each also with its nodes called as variables of several worlds that share base names. Non-trivial: (a) graph has a bidirected edge or an isolated node, (b) at least one latent has a parent or the "
             "simplification removes a node; distinct by input")
     explanation = ("round trip proved for every well-formed ADMG; simplification model checked on every case against y0 and, inside Coq, against "
                    "idempotence and the latent-projection specification")
@@ -206,6 +226,16 @@ class C16(PropBase):
         simplify_latent_dag(dag2)
         if set(dag2.nodes()) != set(dag.nodes()) or set(dag2.edges()) != set(dag.edges()):
             violation = violation or "simplification is not idempotent"
+        if violation is None:
+            # the same DAG over variables of several worlds that share base names: the read-off ADMG must again be the latent projection
+            dagw, back = nx_of_lv_worlds(d)
+            simplify_latent_dag(dagw)
+            aw = NxMixedGraph.from_latent_variable_dag(dagw)
+            gotw = ({back[v] for v in aw.nodes()}, {(back[a], back[b]) for a, b in aw.directed.edges()},
+                    {frozenset((back[a], back[b])) for a, b in aw.undirected.edges()})
+            if gotw != want:
+                violation = (f"with the nodes called as variables of several worlds sharing base names, the ADMG read off the simplified DAG "
+                             f"{sorted(gotw[1])}/{sorted(map(sorted, gotw[2]))} is not the latent projection {sorted(want[1])}/{sorted(map(sorted, want[2]))}")
         has_parent = any(b in d["lat"] for a, b in d["edges"])
         return {"out": out, "violation": violation,
                 "nontrivial": has_parent or set(out_lv["nodes"]) != set(d["nodes"]),
